@@ -24,7 +24,7 @@ RULE = ("cases = regressor (NICKernelRegressor with random proper/improper prior
 ASSUMPTIONS = ["'proper prior' = kappa_0 > 0 and nu_0 > 2: for nu <= 2 the Student-t variance is mathematically infinite (DESIGN 5.6)",
                "kernel mass N is recomputed by the monitor with sklearn.metrics.pairwise_kernels"]
 REQUIRED_MONITORS = ["C15.predict-vs-distribution", "C15.sample_y-contract", "C15.fallback-contract"]
-REGS = ["nic", "nic_improper", "nw", "sk_lin", "sk_tree", "sk_svr", "sk_fail", "sk_lassocv", "skn_gp", "skn_br", "skn_ard", "skn_fail"]
+REGS = ["nic", "nic_improper", "nw", "sk_lin", "sk_tree", "sk_svr", "sk_fail", "sk_lassocv", "skn_gp_alpha0", "skn_gp", "skn_br", "skn_ard", "skn_fail"]
 
 
 def gen_cases(tier, seed):
@@ -56,6 +56,11 @@ def _make(name, rng):
         # scikit-learn's fitted check already exist) - the documented fall-back must answer
         from sklearn.linear_model import LassoCV
         return SklearnRegressor(LassoCV(cv=3), random_state=0)
+    if name == "skn_gp_alpha0":
+        # no jitter: the fit fails on duplicated labelled rows, and an unfitted GaussianProcessRegressor predicts from its
+        # prior (0 / 1) instead of raising NotFittedError
+        from sklearn.gaussian_process import GaussianProcessRegressor
+        return SklearnNormalRegressor(GaussianProcessRegressor(alpha=0.0, random_state=0), random_state=0)
     if name == "sk_fail":
         return SklearnRegressor(FailingRegressor(), random_state=0)
     if name == "skn_fail":
@@ -75,6 +80,9 @@ def run_case(desc):
         yt[:] = yt[0]            # all labels identical: the empirical label standard deviation is exactly 0
     lab = np.zeros(n, bool)
     lab[rng.choice(n, size=min(desc["nl"], n), replace=False)] = True
+    if name == "skn_gp_alpha0" and lab.sum() >= 2 and (desc["seed"] >> 3) % 2:
+        i0, i1 = np.flatnonzero(lab)[:2]
+        X[i1] = X[i0]          # duplicated labelled rows: singular kernel matrix
     # every third case marks missing targets by a reserved number: the sentinel must not enter any label statistic
     ml = -7.5 if (desc["seed"] >> 9) % 3 == 0 else np.nan
     y = np.where(lab, yt, ml)
@@ -105,7 +113,12 @@ def run_case(desc):
     fail_fit = name.endswith("_fail") or (lab.sum() == 0 and name.startswith("sk")) or (name == "sk_lassocv" and lab.sum() < 3)
     try:
         steps.begin()
-        reg.fit(X, y)
+        import warnings as _w
+        with _w.catch_warnings(record=True) as caught:
+            _w.simplefilter("always")
+            reg.fit(X, y)
+        # the wrapper itself announces when the wrapped estimator could not be fitted: then the documented fall-back answers
+        announced_failure = any("could not be fitted" in str(c.message) for c in caught)
         mu = np.asarray(reg.predict(Q), dtype=float)
         if mu.shape != (len(Q),):
             add("predict-wrong-shape", "%s" % (mu.shape,))
@@ -159,7 +172,7 @@ def run_case(desc):
             if lab.sum() == 0:
                 if not np.allclose(mu, 0.0):
                     add("fallback-mean-not-zero-without-labels", "%r" % mu.tolist()[:4])
-            elif name.endswith("_fail") or (name == "sk_lassocv" and lab.sum() < 3):
+            elif name.endswith("_fail") or (name == "sk_lassocv" and lab.sum() < 3) or announced_failure:
                 if not np.allclose(mu, np.mean(yt[lab])):
                     add("fallback-mean-not-the-label-mean", "%r vs %r" % (mu.tolist()[:3], float(np.mean(yt[lab]))))
                 if probabilistic:
